@@ -95,6 +95,9 @@ def solve(puzzle, h, w, problem):
         if puzzle == "nurikabe":
             sat, white = _call(nurikabe.solve_nurikabe, h, w, grid(problem, h, w))
             return sat, arr_facts(white) if sat else []
+        if puzzle in ("nurikabe_low2", "nurikabe_low3"):      # the solver's unknown_low option
+            sat, white = _call(lambda *args: nurikabe.solve_nurikabe(*args, unknown_low=int(puzzle[-1])), h, w, grid(problem, h, w))
+            return sat, arr_facts(white) if sat else []
         if puzzle == "norinori":
             sat, a = _call(norinori.solve_norinori, h, w, rooms(problem[0]))
             return sat, arr_facts(a) if sat else []
